@@ -266,7 +266,7 @@ PROPS['C03'].update({
     'level_note': 'Assumes bitsets contracts (atomic, shortlex keys realise a strict rank compatible with inclusion, frommembers), heapq, sorted, SMT<->Lean transcription; termination not proved.',
 })
 PROPS['C05'].update({
-    'units': LATINV + ['contexts.neighbors', 'contexts._neighbors'],
+    'units': LATINV + ['contexts.neighbors', 'contexts._neighbors', 'matrices.double'],
     'level': 'proof',
     'proved_part': 'lindig.neighbors = exactly the upper covers; the worklist records upper and lower covers per extent (converse by construction, tuple shared by mapping and heap); '
                    'the constructor maps them to member objects, each cover once; Context.neighbors = covers of the generated concept; ' + CHAIN,
@@ -346,7 +346,7 @@ PROPS['C19'].update({
 PROPS['C11'].update({
     'units': ['contexts.todict.true', 'contexts.todict.false', 'contexts.todict.none', 'lattices._tolist', 'lattices._fromlist.raw', 'lattices._fromlist.ordered',
               'contexts.fromdict', 'contexts.fromjson', 'contexts.tojson', 'contexts.__getstate__', 'contexts.__setstate__', 'lattices.__getstate__',
-              'lattices.__setstate__', 'matrices.Relation.__reduce__', 'matrices.Vectors.__reduce__', 'matrices.Relation.__new__', 'lattices._init'],
+              'lattices.__setstate__', 'matrices.Relation.__reduce__', 'matrices.Vectors.__reduce__', 'matrices.Relation.__new__', 'matrices.Relation.__new__.unpickle', 'lattices._init'],
     'level': 'other',
     'proved_part': 'todict/_tolist: the documented index-based encoding (keys, per concept extent/intent index tuples and neighbour indexes in stored order; lattice included iff requested/already computed); '
                    'fromdict: acceptance and faithful cells, stored lattice attached with the raw flag; _fromlist: from any permutation of the canonical list (raw) or the canonical list (ordered) '
